@@ -11,6 +11,7 @@ import OG.C14.Align
 import OG.C14.Shared
 import OG.C14.Tier
 import OG.C14.Schema
+import OG.C14.Cmd
 
 namespace OG.C14.Ix
 
@@ -86,10 +87,15 @@ def procILogged (oc : Nat → Outcome) : Nat → St → String → St × String
     | .indexes, q :: _ => procILogged oc n (step σ (.procI (oc q.iid))) (acc ++ logI (oc q.iid) q σ)
     | _, _ => (σ, acc)
 
-/-- one `handle()` with its call log; the state it returns is `run sc σ`. -/
+/-- an alteration that lands during a run is a command like any other. -/
+def midAlter (σ : St) : Option Int → St
+  | some d => (Cmd.cmdAlter σ (some d)).1
+  | none => σ
+
+/-- one `handle()` with its call log. -/
 def runLogged (sc : Script) (lm : Option Nat) (σ : St) : St × String :=
-  let σa := steps σ ([.refreshS sc.okS] ++ optAlter sc.alter1 ++ [.refreshI sc.okI] ++ optAlter sc.alter2 ++
-    (match lm with | some sid => [.load sid] | none => []))
+  let σa := midAlter (step (midAlter (step σ (.refreshS sc.okS)) sc.alter1) (.refreshI sc.okI)) sc.alter2
+  let σa := match lm with | some sid => step σa (.load sid) | none => σa
   let head := s!"RS{bit sc.okS} RI{bit sc.okI}"
   if !(sc.okS && sc.okI) then (σa, head)
   else
@@ -114,7 +120,9 @@ def stepX (σ : Option St) (ws : List String) : Option St × String :=
     | none => (some σ, "bad-op")
   | some σ, ["alter", d] =>
     match d.toInt? with
-    | some d => let σ := step σ (.alter d); (some σ, "ok | " ++ dump σ)
+    | some d =>
+      let (σ', ok) := Cmd.cmdAlter σ (some d)
+      (some σ', (if ok then "ok" else "err") ++ " | " ++ dump σ')
     | none => (some σ, "bad-op")
   | some σ, ["load", sid] =>
     match sid.toNat? with
@@ -145,27 +153,28 @@ namespace OG.C14.Al
 /-- `g` ops — the catalogue's assignment of shard groups to index groups:
   g new <sgd> <igd>            → ok <sgd> <igd>          (durations after normalisation)
   g sg <t>                     → sg <s> <e> ig <s> <e> | exists
-  g alter <sgd|-> <igd|->      → ok <sgd> <igd> -/
-def stepG (c : Option Cat) (ws : List String) : Option Cat × String :=
+  g alter <sgd|-> <igd|-> <dur|->  → ok <sgd> <igd> <dur> | err   (the command path) -/
+def stepG (c : Option (Cat × Int)) (ws : List String) : Option (Cat × Int) × String :=
   match c, ws with
   | _, ["new", s, i] =>
     match s.toInt?, i.toInt? with
-    | some s, some i => if 0 < s && 0 ≤ i then let c := Cat.init s i; (some c, s!"ok {c.sgd} {c.igd}") else (c, "bad-op")
+    | some s, some i => if 0 < s && 0 ≤ i then let c := Cat.init s i; (some (c, 0), s!"ok {c.sgd} {c.igd}") else (c, "bad-op")
     | _, _ => (c, "bad-op")
-  | some c, ["sg", t] =>
+  | some (c, d), ["sg", t] =>
     match t.toInt? with
     | some t =>
       match createSG c t with
-      | (c', some (sg, ig)) => (some c', s!"sg {sg.s} {sg.e} ig {ig.s} {ig.e}")
-      | (c', none) => (some c', "exists")
-    | none => (some c, "bad-op")
-  | some c, ["alter", s, i] =>
-    match Ix.parseOptInt s, Ix.parseOptInt i with
-    | some s, some i =>
+      | (c', some (sg, ig)) => (some (c', d), s!"sg {sg.s} {sg.e} ig {ig.s} {ig.e}")
+      | (c', none) => (some (c', d), "exists")
+    | none => (some (c, d), "bad-op")
+  | some (c, d), ["alter", s, i, dur] =>
+    match Ix.parseOptInt s, Ix.parseOptInt i, Ix.parseOptInt dur with
+    | some s, some i, some dur =>
       if (match s with | some v => 0 < v | none => true) && (match i with | some v => 0 ≤ v | none => true) then
-        let c := alter c s i; (some c, s!"ok {c.sgd} {c.igd}")
-      else (some c, "bad-op")
-    | _, _ => (some c, "bad-op")
+        let ((c', d'), ok) := Cmd.alterCat c d dur s i
+        (some (c', d'), if ok then s!"ok {c'.sgd} {c'.igd} {d'}" else "err")
+      else (some (c, d), "bad-op")
+    | _, _, _ => (some (c, d), "bad-op")
   | _, _ => (c, "bad-op")
 
 end OG.C14.Al
